@@ -499,3 +499,60 @@ def _factor_out_pi_int(h):
     ut = h.module(UT)
     out = h.call(ut._factor_out_pi, [3, "p0", 0, -7])
     h.ensure("verbatim-in-order", out.returned and out.value == "3, p0, 0, -7")
+
+
+# ------------------------------------------------------------------------------------------------ many loop variables
+def tdm_prog_many(h, K=12, T=2):
+    """a time-domain program with K per-time-bin arrays: loop-variable names with TWO digits (p10, p11) exist"""
+    tdm, ops = h.module(TDM), h.module(OPS)
+    prog = tdm.TDMProgram(N=2, name="c14tdm_many")
+    A = [[h.real(f"p{k}_{t}") for t in range(T)] for k in range(K)]
+    with prog.context(*A) as (p, q):
+        for k in range(K - 1):
+            ops.Rgate(p[k]) | q[k % 2]
+        ops.MeasureHomodyne(p[K - 1]) | q[0]
+    return prog, A
+
+
+def _many_roundtrip(which):
+    def fn(h):
+        K, T = 12, 2
+        par = h.module(PAR)
+        prog, A = tdm_prog_many(h, K, T)
+        if which == "xir":
+            io_ = h.module(XI)
+            ctx = [h.stubbed(io_, "xir", FakeXir), h.stubbed(par, "blackbird", FakeBlackbird)]
+            to_ir, from_ir = io_.to_xir, io_.from_xir_to_tdm
+        else:
+            io_ = h.module(BB)
+            ctx = [h.stubbed(io_, "blackbird", FakeBlackbird), h.stubbed(par, "blackbird", FakeBlackbird)]
+            to_ir, from_ir = io_.to_blackbird, io_.from_blackbird_to_tdm
+        import contextlib
+        with contextlib.ExitStack() as st:
+            for c in ctx:
+                st.enter_context(c)
+            out = h.call(to_ir, prog)
+            h.ensure("to-ir.no-exception", out.returned, bounded_shape=True)
+            if not out.returned:
+                return
+            out2 = h.call(from_ir, out.value)
+            h.ensure("from-ir.no-exception", out2.returned, bounded_shape=True)
+            if not out2.returned:
+                return
+            l = out2.value
+            h.ensure("roundtrip.same-number-of-arrays", len(l.tdm_params) == K, bounded_shape=True)
+            for k in range(min(K, len(l.tdm_params))):
+                h.ensure(f"roundtrip.array-{k}-is-array-{k}", len(l.tdm_params[k]) == T and all(l.tdm_params[k][t] is A[k][t] for t in range(T)), bounded_shape=True)
+            h.ensure("roundtrip.same-number-of-commands", len(l.circuit) == len(prog.circuit), bounded_shape=True)
+            for j, (a, b) in enumerate(zip(prog.circuit, l.circuit)):
+                h.ensure(f"roundtrip.command-{j}-loops-over-the-same-variable", type(a.op).__name__ == type(b.op).__name__ and [r.ind for r in a.reg] == [r.ind for r in b.reg]
+                         and [str(x) for x in a.op.p] == [str(x) for x in b.op.p], bounded_shape=True)
+            # the loop variable of command j is bound to array j in the loaded program
+            names = [v.name for v in l.loop_vars]
+            h.ensure("roundtrip.loop-variables-in-numeric-order", names == [f"p{k}" for k in range(K)], bounded_shape=True)
+    fn.__name__ = ""
+    return fn
+
+
+PROOFS.append(Proof("C14", XI + ":from_xir_to_tdm", _many_roundtrip("xir"), name="to_xir+from_xir_to_tdm/ir-roundtrip/twelve-loop-variables"))
+PROOFS.append(Proof("C14", BB + ":from_blackbird_to_tdm", _many_roundtrip("blackbird"), name="to_blackbird+from_blackbird_to_tdm/ir-roundtrip/twelve-loop-variables"))
